@@ -177,6 +177,37 @@ func runC02(c *fw.Ctx) {
 			gradCheck(k, in, xs, mask, g, "")
 		})
 	}
+	// operands of small ordinary magnitude (1e-12 .. 1e-5: probabilities of confidently wrong predictions, variances of nearly constant
+	// features) through the operations whose derivative grows as the operand shrinks - Log (1/x), Pow(-1), Pow(0.5), Pow(-0.5), Div by
+	// the operand - under a weighting of the size of the operand, so that the gradient is an ordinary number
+	for i := 0; i < c.Pick(400, 8000); i++ {
+		c.Case(func(k *fw.K) {
+			r := k.Rng
+			shape := RandShape(r, 0, 2, 3)
+			x, g := ref.Zeros(shape), ref.Zeros(shape)
+			for i := range x.Data {
+				x.Data[i] = math.Pow(10, -5-7*r.Float64())
+				g.Data[i] = x.Data[i] * (0.5 + r.Float64()) * []float64{1, -1}[r.Intn(2)]
+			}
+			in := []ref.Instr{{Op: "log"}, {Op: "pow", F: -1}, {Op: "pow", F: 0.5}, {Op: "pow", F: -0.5}, {Op: "div"}}[r.Intn(5)]
+			xs, mask := []*ref.T{x}, []bool{true}
+			if in.Op == "div" {
+				xs, mask = []*ref.T{Shuffled(r, Unique(r, shape, 0.5, 2)), x}, []bool{r.Intn(2) == 0, true}
+				for i := range g.Data {
+					g.Data[i] *= x.Data[i]
+				}
+			}
+			if in.Op == "pow" && in.F == -1 {
+				for i := range g.Data {
+					g.Data[i] *= x.Data[i]
+				}
+			}
+			k.Case = gcase{In: in, Ops: xs, Tracked: mask, G: g}
+			k.Key("small-operand/%s/%g/%s", in.Op, in.F, shapeKey(shape))
+			k.Count("small_operand_cases", 1)
+			gradCheck(k, in, xs, mask, g, "")
+		})
+	}
 	// Pow with a TINY non-zero exponent (|a| down to 1e-300: a - 1 rounds to -1, the exponent is still not 0) under an upstream
 	// weighting that makes a * x^(a-1) * g an ordinary number; and Scale by 1e+-300 under the opposite weighting
 	for i := 0; i < c.Pick(300, 6000); i++ {
